@@ -210,7 +210,7 @@ class MultiTwoQubitBlockFactory(IOperationBulkDrawComponentFactory[TCircuitTwoQu
                         continue
 
                     bounded_offset: float = (2 * (operation.element_index / (operation.group_size - 1)) - 1.0)  # [-1, +1]
-                    duration_scaling: float = 0.5 * operation.operation.duration  # tau / 2
+                    duration_scaling: float = 0.5  # fraction of tau; OffsetTransformConstructor multiplies by the duration
                     offset_scalar: float = bounded_offset * duration_scaling * scalar
                     offset_transform_constructor: ITransformConstructor = OffsetTransformConstructor(
                         default_transform=transform_constructor,
